@@ -25,7 +25,7 @@ ORDER = ["Homogeneous", "Affine", "Similarity", "Rotation", "Translation", "Unif
 WARPS = ["PythonPWA", "CachedPWA", "ThinPlateSplines"]
 GEN_REL = os.path.join("MenpoModel", "Generated", "C04Tables.lean")
 GEN_TARGETS = ["MenpoModel.Generated.C04Tables", "MenpoModel.GenProps.C04"]
-N_OBLIGATIONS = 4
+N_OBLIGATIONS = 5
 
 
 def classes():
@@ -46,6 +46,19 @@ def family_classes():
         c = todo.pop()
         if c.__module__.startswith("menpo.transform"):
             seen[c.__name__] = c
+        todo.extend(c.__subclasses__())
+    return sorted(seen)
+
+
+def invertible_classes():
+    """every subclass of the Invertible mix-in that is loaded with menpo.transform: a new invertible warp class the model
+    has no theorems for must break an obligation (`invertible_ok`), not go unnoticed"""
+    from menpo.transform.base.invertible import Invertible
+    import menpo.transform  # noqa: F401
+    seen, todo = {}, [Invertible]
+    while todo:
+        c = todo.pop()
+        seen[c.__name__] = c
         todo.extend(c.__subclasses__())
     return sorted(seen)
 
@@ -125,6 +138,38 @@ def dispatch_table():
     return rows
 
 
+def _outer_state(obj):
+    """{place: identity} of everything a memo could hide in OUTSIDE the instance: the class dictionaries along the MRO and
+    the globals of the modules that define them (menpo's own only; dunder names such as __warningregistry__ excluded)"""
+    import sys
+    out = {}
+    for k in type(obj).__mro__:
+        if not k.__module__.startswith("menpo"):
+            continue
+        for a, v in vars(k).items():
+            if not a.startswith("__"):
+                out["class %s.%s" % (k.__name__, a)] = id(v)
+                if isinstance(v, (dict, list, set)):
+                    out["class %s.%s (size)" % (k.__name__, a)] = len(v)
+        m = sys.modules.get(k.__module__)
+        for a, v in (vars(m).items() if m is not None else ()):
+            if not a.startswith("__"):
+                out["module %s.%s" % (k.__module__, a)] = id(v)
+                if isinstance(v, (dict, list, set)):
+                    out["module %s.%s (size)" % (k.__module__, a)] = len(v)
+    return out
+
+
+def _outer_writes(obj, action):
+    before = _outer_state(obj)
+    try:
+        action()
+    except Exception:      # noqa: BLE001
+        pass
+    after = _outer_state(obj)
+    return sorted(k for k in set(before) | set(after) if before.get(k) != after.get(k))
+
+
 def write_table():
     """class name -> attributes written by pseudoinverse() & friends, measured on live objects in several lives"""
     import warnings
@@ -150,6 +195,7 @@ def write_table():
                     warnings.simplefilter("ignore")
                     for a in acts:
                         w.update(common.attr_writes(t, a))
+                        w.update(_outer_writes(t, a))          # class attributes / module globals (a memo kept outside)
                     # a second life: apply, re-target / re-parametrise (not measured), then ask again (measured)
                     try:
                         t.apply(x)
@@ -184,7 +230,10 @@ def render(rows, writes, fam):
             "def pinvWrites : WriteTable :=\n  [%s]\n\n"
             "/-- every subclass of Homogeneous defined under menpo.transform -/\n"
             "def familyClasses : List String :=\n  [%s]\n\n"
-            "end MenpoModel.Generated.C04\n" % (drows, wrows, ", ".join(lean_str(f) for f in fam)))
+            "/-- every subclass of the Invertible mix-in that is loaded with menpo.transform -/\n"
+            "def invertibleClasses : List String :=\n  [%s]\n\n"
+            "end MenpoModel.Generated.C04\n" % (drows, wrows, ", ".join(lean_str(f) for f in fam),
+                                                 ", ".join(lean_str(f) for f in invertible_classes())))
 
 
 def generate():
